@@ -277,11 +277,20 @@ theorem totalRuns_replicate (n : Nat) (b : Bool) : totalRuns (List.replicate n [
 
 /-! ### aretry -/
 
-theorem retryLoop_spec (listed : List Nat) (script : Nat → Attempt) (maxTries : Nat) (blocking : Bool) :
+/-- the rounds of `n` attempts of which all but the last raised -/
+def retryRounds (kind : BodyKind) (blocking : Bool) (last : Attempt) (n : Nat) : List (List Bool) :=
+  List.replicate (n - 1) [attemptBlocks kind blocking (.raise 0)] ++ [[attemptBlocks kind blocking last]]
+
+theorem attemptBlocks_raise (kind : BodyKind) (blocking : Bool) (c d : Nat) :
+    attemptBlocks kind blocking (.raise c) = attemptBlocks kind blocking (.raise d) := by
+  cases kind <;> rfl
+
+theorem retryLoop_spec (listed : List Nat) (script : Nat → Attempt) (maxTries : Nat) (blocking : Bool)
+    (kind : BodyKind) :
     ∀ (todo i : Nat), 0 < todo → todo + i = maxTries →
       let n := min (leadingListed listed script todo i + 1) todo
-      (retryLoop (α := α) listed script maxTries blocking todo i) =
-        ⟨attemptRes script (i + n - 1), List.replicate n [blocking], n - 1⟩ := by
+      (retryLoop (α := α) listed script maxTries blocking kind todo i) =
+        ⟨attemptRes script (i + n - 1), retryRounds kind blocking (script (i + n - 1)) n, n - 1⟩ := by
   intro todo
   induction todo with
   | zero => intro i h; omega
@@ -290,7 +299,7 @@ theorem retryLoop_spec (listed : List Nat) (script : Nat → Attempt) (maxTries 
     simp only [retryLoop, leadingListed]
     cases hs : script i with
     | ret v =>
-      simp [attemptRes, hs]
+      simp [attemptRes, hs, retryRounds]
     | raise cls =>
       by_cases hl : isListed listed cls = true
       · simp only [hl, if_true]
@@ -298,7 +307,7 @@ theorem retryLoop_spec (listed : List Nat) (script : Nat → Attempt) (maxTries 
         · have ht : t = 0 := by omega
           subst ht
           subst hlast
-          simp [attemptRes, hs, leadingListed]
+          simp [attemptRes, hs, leadingListed, retryRounds]
         · have ht : 0 < t := by omega
           have := ih (i + 1) ht (by omega)
           simp only at this
@@ -308,18 +317,57 @@ theorem retryLoop_spec (listed : List Nat) (script : Nat → Attempt) (maxTries 
               = min (leadingListed listed script t (i + 1) + 1) t + 1 := by omega
           have hpos : 1 ≤ min (leadingListed listed script t (i + 1) + 1) t := by omega
           rw [hmin]
+          have hidx : i + (min (leadingListed listed script t (i + 1) + 1) t + 1) - 1
+              = i + 1 + min (leadingListed listed script t (i + 1) + 1) t - 1 := by omega
+          rw [hidx]
           congr 1
-          · congr 1; omega
+          · simp only [retryRounds, attemptBlocks_raise kind blocking cls 0]
+            obtain ⟨m, hm⟩ : ∃ m, min (leadingListed listed script t (i + 1) + 1) t = m + 1 :=
+              ⟨min (leadingListed listed script t (i + 1) + 1) t - 1, by omega⟩
+            rw [hm]
+            simp [List.replicate_succ]
           · omega
       · simp only [hl, Bool.false_eq_true, if_false]
-        simp [attemptRes, hs]
+        simp [attemptRes, hs, retryRounds]
+
+theorem flushSizes_append (a b : List (List Bool)) : flushSizes (a ++ b) = flushSizes a ++ flushSizes b := by
+  simp [flushSizes]
+
+theorem totalRuns_append (a b : List (List Bool)) : totalRuns (a ++ b) = totalRuns a + totalRuns b := by
+  induction a with
+  | nil => simp [totalRuns]
+  | cons x a ih => simp [totalRuns, ih]; omega
+
+theorem flushSizes_retryRounds (kind : BodyKind) (blocking : Bool) (last : Attempt) (n : Nat) :
+    flushSizes (retryRounds kind blocking last n) = retryFlushes kind blocking last n := by
+  simp only [retryRounds, retryFlushes, flushSizes_append, flushSizes_replicate]
+  congr 1
+  · cases attemptBlocks kind blocking (.raise 0) <;> simp
+  · cases attemptBlocks kind blocking last <;> simp [flushSizes, countTrue]
+
+theorem totalRuns_retryRounds (kind : BodyKind) (blocking : Bool) (last : Attempt) (n : Nat) (h : 0 < n) :
+    totalRuns (retryRounds kind blocking last n) = n := by
+  simp only [retryRounds, totalRuns_append, totalRuns_replicate]
+  simp [totalRuns]; omega
+
+theorem length_retryRounds (kind : BodyKind) (blocking : Bool) (last : Attempt) (n : Nat) (h : 0 < n) :
+    (retryRounds kind blocking last n).length = n := by
+  simp [retryRounds]; omega
+
+/-- a lazy body (the `@asynq()` generator): every attempt blocks or none does -/
+theorem retryFlushes_lazy (blocking : Bool) (last : Attempt) (n : Nat) (h : 0 < n) :
+    retryFlushes .lazy blocking last n = if blocking then List.replicate n 1 else [] := by
+  cases blocking <;> cases last <;> simp [retryFlushes, attemptBlocks]
+  all_goals
+    obtain ⟨m, rfl⟩ : ∃ m, n = m + 1 := ⟨n - 1, by omega⟩
+    simp [List.replicate_succ']
 
 /-! ### every helper's observation is the one the property demands -/
 
 section obs
 variable {α : Type} (env : Env α)
 
-theorem amaxmin_varargs (isMin keyNone : Bool) (a b : α) (xs : List α) :
+theorem amaxmin_varargs (isMin : Bool) (keyNone : FnObj) (a b : α) (xs : List α) :
     amaxmin env isMin false keyNone (.elems (a :: b :: xs)) =
       amaxmin env isMin false keyNone (.one ⟨.tuple, a :: b :: xs⟩) := by
   simp [amaxmin, maxIterable]
@@ -329,7 +377,7 @@ theorem amap_obs (s : Src α) : observe (amap env s) = expected env (.amap s) :=
   cases kind <;>
     simp [amap, amapCore, Src.iterate, expected, observe, perElem, noCalls, flushSizes_one, totalRuns_one, flushSizes_nil, totalRuns_nil]
 
-theorem afilter_obs (n : Bool) (s : Src α) : observe (afilter env n s) = expected env (.afilter n s) := by
+theorem afilter_obs (n : FnObj) (s : Src α) : observe (afilter env n s) = expected env (.afilter n s) := by
   obtain ⟨kind, items⟩ := s
   cases kind <;> cases n <;>
     simp [afilter, Src.iterate, expected, observe, perElem, noCalls, flushSizes_one, totalRuns_one, flushSizes_nil, totalRuns_nil, compress_map]
@@ -339,11 +387,12 @@ theorem afilterfalse_obs (s : Src α) : observe (afilterfalse env s) = expected 
   cases kind <;>
     simp only [afilterfalse, Src.iterate, expected, observe, perElem, noCalls, flushSizes_one, totalRuns_one, flushSizes_nil, totalRuns_nil, compress_map_not] <;> simp
 
-theorem asorted_obs (kn rev : Bool) (s : Src α) : observe (asorted env kn rev s) = expected env (.asorted kn rev s) := by
+theorem asorted_obs (kn : FnObj) (rev : Bool) (s : Src α) : observe (asorted env kn rev s) = expected env (.asorted kn rev s) := by
   obtain ⟨kind, items⟩ := s
   cases kind <;> cases kn <;>
     simp only [asorted, amapCore, Src.iterate, expected, observe, perElem, noCalls, flushSizes_one, totalRuns_one,
-      selfKeys_eq, sortedPairs_eq, if_true, Bool.false_eq_true, if_false, reduceCtorEq] <;>
+      selfKeys_eq, sortedPairs_eq, if_true, Bool.false_eq_true, if_false, reduceCtorEq, FnObj.isNone_none,
+      FnObj.isNone_fn] <;>
     first
     | rfl
     | (cases unorderable env items <;> simp [sortedPairs_eq, flushSizes_nil, totalRuns_nil])
@@ -355,9 +404,9 @@ theorem asift_obs (s : Src α) : observe (asift env s) = expected env (.asift s)
       siftLoop_zip_map_partition, reduceCtorEq, if_false, if_true] <;> rfl
 
 
-theorem amaxmin_obs_src (isMin kn : Bool) (kind : IterKind) (items : List α) (h : kind ≠ .nonIter) :
+theorem amaxmin_obs_src (isMin : Bool) (kn : FnObj) (kind : IterKind) (items : List α) (h : kind ≠ .nonIter) :
     observe (amaxmin env isMin false kn (.one ⟨kind, items⟩)) =
-      (if kn then
+      (if kn = .none then
         if unorderable env items then noCalls (.raised .typeError)
         else match firstExt isMin (selfKey env) items with
           | none => noCalls (.raised .valueError)
@@ -367,13 +416,8 @@ theorem amaxmin_obs_src (isMin kn : Bool) (kind : IterKind) (items : List α) (h
         | some m => perElem env (.ok (.elem m)) items) := by
   cases kn
   · cases kind <;>
-      simp only [amaxmin, maxIterable, amapCore, Src.iterate, Bool.false_eq_true, if_false] <;>
-      first
-      | (simp at h; done)
-      | (rcases pyExt_enumerate_cases isMin env.key items with ⟨h1, h2⟩ | ⟨p, h1, h2⟩ <;>
-          simp only [h1, h2, observe, perElem, flushSizes_one, totalRuns_one])
-  · cases kind <;>
-      simp only [amaxmin, maxIterable, Src.iterate, selfKeys_eq, if_true, Bool.false_eq_true, if_false] <;>
+      simp only [amaxmin, maxIterable, Src.iterate, selfKeys_eq, if_true, Bool.false_eq_true, if_false,
+        FnObj.isNone_none] <;>
       first
       | (simp at h; done)
       | (cases unorderable env items <;> simp only [Bool.false_eq_true, if_false, if_true] <;>
@@ -382,8 +426,15 @@ theorem amaxmin_obs_src (isMin kn : Bool) (kind : IterKind) (items : List α) (h
           | (rw [pyExt_eq_firstExt]
              change _ = (match firstExt isMin (selfKey env) items with | none => _ | some m => _)
              cases firstExt isMin (selfKey env) items <;> rfl))
+  · cases kind <;>
+      simp only [amaxmin, maxIterable, amapCore, Src.iterate, Bool.false_eq_true, if_false, FnObj.isNone_fn,
+        reduceCtorEq] <;>
+      first
+      | (simp at h; done)
+      | (rcases pyExt_enumerate_cases isMin env.key items with ⟨h1, h2⟩ | ⟨p, h1, h2⟩ <;>
+          simp only [h1, h2, observe, perElem, flushSizes_one, totalRuns_one])
 
-theorem amaxmin_obs (isMin badKw kn : Bool) (args : MaxArgs α) :
+theorem amaxmin_obs (isMin badKw : Bool) (kn : FnObj) (args : MaxArgs α) :
     observe (amaxmin env isMin badKw kn args) = expected env (.amaxmin isMin badKw kn args) := by
   cases badKw
   · cases args with
@@ -406,12 +457,14 @@ theorem amaxmin_obs (isMin badKw kn : Bool) (args : MaxArgs α) :
         rfl
   · simp [amaxmin, expected, observe, noCalls, flushSizes_nil, totalRuns_nil]
 
-theorem aretry_obs (m : Nat) (l : List Nat) (sc : List Attempt) (b : Bool) :
-    observe (aretry (α := α) m l sc b) = expected env (.aretry m l sc b) := by
+theorem aretry_obs (m : Nat) (l : List Nat) (sc : List Attempt) (b : Bool) (k : BodyKind) :
+    observe (aretry (α := α) m l sc b k) = expected env (.aretry m l sc b k) := by
   by_cases hm : m = 0
   · subst hm; simp [aretry, expected, observe, noCalls, flushSizes_nil, totalRuns_nil]
-  · have := retryLoop_spec (α := α) l (scriptAt sc) m b m 0 (by omega) (by omega)
-    simp only [aretry, expected, hm, if_false, this, observe, flushSizes_replicate, totalRuns_replicate]
+  · have := retryLoop_spec (α := α) l (scriptAt sc) m b k m 0 (by omega) (by omega)
+    have hn : 0 < min (leadingListed l (scriptAt sc) m 0 + 1) m := by omega
+    simp only [aretry, expected, hm, if_false, this, observe, flushSizes_retryRounds,
+      totalRuns_retryRounds _ _ _ _ hn]
     simp
 
 end obs
